@@ -80,24 +80,39 @@ PROPS = {
     "C01": {
         "units": ["tau"],
         "level": "other",
-        "property_obligations": ["val", "construct_equality_formula", "construct_total_function_formula", "construct_partial_function_formula",
-                                 "construct_interval_formula", "choose_fresh_variable_names", "lemma_val_total", "lemma_val_unary", "lemma_val_partial",
+        "property_obligations": ["tau_star", "tau_star_rule", "tau_star_fo_head_rule", "tau_star_prop_head_rule", "tau_star_constraint_rule", "tau_body", "tau_b",
+                                 "tau_b_first_order_literal", "tau_b_propositional_literal", "tau_b_comparison",
+                                 "val", "construct_equality_formula", "construct_total_function_formula", "construct_partial_function_formula",
+                                 "construct_interval_formula", "choose_fresh_variable_names", "globals_max_arity", "globals_numbering", "lemma_globals_compose",
+                                 "lemma_rule_closed", "lemma_rule_fwd", "lemma_rule_fwd_at", "lemma_rule_bwd", "lemma_imp_sem", "lemma_core_fo", "lemma_core_prop",
+                                 "lemma_body", "lemma_fo_literal", "lemma_prop_literal", "lemma_cmp_literal", "lemma_taub_block",
+                                 "lemma_val_total", "lemma_val_unary", "lemma_val_partial",
                                  "lemma_val_interval", "lemma_in_vals_coin", "lemma_taken_bound", "lemma_pigeonhole", "lemma_ex2", "lemma_ex3", "lemma_ex4"],
-        "carriers": [],
-        "explanation": "The term-value layer of tau* is proved on the real code (Verus, unbounded): for every mini-gringo term t (all operator nestings, intervals, division, modulo, unary minus) and every output "
-                       "variable z, val(t, z) is satisfied — in both worlds of every HT interpretation, under every assignment — exactly when the value of z is one of the values of t under the mini-gringo "
-                       "semantics in_vals (spec/tau_spec.rs), and its free variables are z and the variables of t; this includes the fresh-name reasoning (I, J, K, Q, R chosen by the real "
-                       "choose_fresh_variable_names, proved to return pairwise distinct names outside the given set, with termination and no overflow), nested shadowing, and adversarial program variable names. "
-                       "NOT yet under contract: the body-literal, comparison and rule layers (tau_b*, tau_body, tau_star_*_rule, choose_fresh_global_variables, tau_star) and the step from HT models to stable models.",
+        "carriers": ["asp::Term::variables", "asp::Atom::variables", "asp::Literal::variables", "asp::Comparison::variables", "asp::AtomicFormula::variables",
+                     "asp::Head::variables", "asp::Body::variables", "asp::Rule::variables", "asp::Program::variables", "asp::Head::predicate", "asp::Head::terms", "asp::Head::arity"],
+        "explanation": "The first sentence of C01 is proved on the real code (Verus, unbounded) from the program down to the terms: tau_star(p) returns one sentence per rule (theory_ok), and for every rule r "
+                       "the sentence tau_star_rule(r, globals) is closed and is satisfied by an HT interpretation <H,T> (H subset of T, at either world) exactly when every ground instance of r is "
+                       "(rule_ok against the oracle rule_sat of spec/rule_spec.rs: basic heads, choice heads with `p v not p`, constraints; body literals with single and double negation and comparisons "
+                       "per spec/taub_spec.rs; multi-valued, partial term values per in_vals of spec/tau_spec.rs). Each layer has its own contract: val (val_ok), the four val constructors, "
+                       "tau_b_* and tau_b (taub_ok), tau_body (body_ok), the three rule translators and tau_star_rule (rule_ok), including ALL fresh-name reasoning on the real code: I/J/K/Q/R and Z-names by "
+                       "choose_fresh_variable_names (pairwise distinct, outside the given set, termination, no overflow), the head variables V<n> by the numbering section of "
+                       "choose_fresh_global_variables (u128 counting, skipping program variables: distinct, not a program variable, terminates, no overflow), shadowing of an outer Z by a body literal's own block, "
+                       "adversarial program variable names. The real variables() queries of the mini-gringo syntax tree are proved to cover every variable occurrence. "
+                       "NOT decided: the second sentence of C01 (stable models = equilibrium models, with extra facts): literature; and the three assumed pieces listed below.",
         "assumptions": [
             "SPEC ASSUMPTION: integer division/modulo are defined for a positive divisor only, as floor division (i = j*q + r, 0 <= r < j), following the comment in construct_partial_function_formula; "
             "the relation of this convention to clingo's truncating division is not decided here",
-            "tau_b_first_order_literal, tau_b_comparison, tau_b, tau_body, tau_star_fo_head_rule, tau_star_prop_head_rule, tau_star_constraint_rule, tau_star_rule, choose_fresh_global_variables: NOT verified",
+            "ASSUMED CONTRACT valtz (tau_star.rs, 4 lines: drain/zip/map over two vectors, outside Verus' subset): returns the conjunction of val(t_i, V_i)",
+            "ASSUMED COMPOSITION choose_fresh_global_variables: its first (largest head arity) and last (numbering) sections are verified as fragments and lemma_globals_compose derives the function's contract "
+            "from their postconditions; assumed: the middle section (read-only regex loop over the program's variables) assigns nothing but max_taken_var",
+            "Formula::conjoin: assumed contract r == spec_conjoin(items) (Iterator::reduce)",
+            "TauStar for Program (trait wrapper calling tau_star) is not under contract",
             "stable models = equilibrium models of the tau* theory (Lifschitz, Luehne, Schaub 2019): literature, not re-proved",
-            "Display of fol::Variable / asp::Variable is opaque (only used to build the set of taken names; freshness of I/J/K/Q/R is needed only w.r.t. the output variable, sorts separate them from program variables)",
-            "IndexSet length <= isize::MAX (Rust allocation limit)",
+            "Display of asp::Variable renders its name (T10; the real impl is write!(f, \"{}\", self.0.0) in formatting/asp/mini_gringo/default.rs), Display of u128/usize is the decimal numeral (T8)",
+            "slice::sort permutes (T12), slice::to_vec copies (T13), IndexSet/Vec lengths bounded by the Rust allocation limit (axiom_indexset_len, T11)",
+            "D1: the derived Ord of fol::Variable is an external stub without contract (only sort() uses it)",
         ],
-        "not_covered": ["tau_b*", "tau_body", "tau_star_*_rule", "choose_fresh_global_variables"],
+        "not_covered": ["valtz (assumed)", "regex section of choose_fresh_global_variables (assumed frame)", "impl TauStar for Program", "stable-model half of C01"],
     },
     "C02": {
         "units": ["ext"],
@@ -413,6 +428,8 @@ def run_property(pid, cfg, tier, seed, bless=False, t0=None):
             "not_covered": cfg.get("not_covered", []),
             "vacuity_guards": {u: r.get("canaries") for u, r in results.items()},
             "stability_reruns": reruns,
+            "failure_confirmation_runs": {u: r.get("confirmation_runs") for u, r in results.items() if r.get("confirmation_runs")},
+            "unstable_obligations": {u: r.get("unstable") for u, r in results.items() if r.get("unstable")},
             "samples": samples,
             "unit_sha256": {u: r.get("unit_sha256") for u, r in results.items()},
             "undecided": undecided,
